@@ -155,6 +155,13 @@ def run_case(case):
         edges_ = list(fr.internal_big_edges)
         if len(edges_) < 2:
             continue
+        if rng.random() < 0.4:
+            # the mesh moved after the interfaces were built (smoothing, registration): only the vertices' CURRENT positions count
+            sp_ = min(np.hypot(e_.v1.x - e_.v2.x, e_.v1.y - e_.v2.y) for e_ in r.edges.values())
+            for v_ in r.vertices.values():
+                v_.x = float(v_.x + rng.normal(0, 0.3 * sp_))
+                v_.y = float(v_.y + rng.normal(0, 0.3 * sp_))
+            hist["vertices-moved-after-build"] = hist.get("vertices-moved-after-build", 0) + 1
         layers = int(rng.integers(0, 4))
         # place the tissue inside the image
         zs = np.array([complex(v.x, v.y) for v in r.vertices.values()])
